@@ -22,6 +22,8 @@ package resolver
 //@ func NewMemory
 //@   ensures [C06,C09:ri] resolverRI(result)
 //@   ensures [C06:empty] forall r string :: !(r in result.index)
+//@   ensures [fresh] !old(alive(result)) && alive(result)
+//@   modifies alloc, new Memory.*, new map[string]ocispec.Descriptor, new map[digest.Digest]set.Set[string]
 //@
 //@ func (*Memory).Resolve
 //@   requires [ri] resolverRI(m)
@@ -35,6 +37,7 @@ package resolver
 //@   ensures [C06,C09:view-values] m.index[reference] == desc && (forall r string :: r != reference ==> m.index[r] == old(m.index[r]))
 //@   ensures [C09:tags-consistent] resolverRI(m)
 //@   ensures [C06:no-error] result == nil
+//@   ensures [tagsets-old-or-fresh] forall o map[string]unit :: isTagSetOf(m, o) ==> old(isTagSetOf(m, o)) || !old(alive(o))
 //@   ensures [frame-sets] forall o map[string]unit :: old(alive(o)) && !old(isTagSetOf(m, o)) ==> (forall k string :: (k in o) == old(k in o)) && len(o) == old(len(o))
 //@   modifies map[string]ocispec.Descriptor@m.index, map[digest.Digest]set.Set[string]@m.tags, map[string]unit, alloc
 //@
